@@ -305,7 +305,9 @@ class Check(PropertyCheck):
                   "connection parameters, except CONNECTs the routing model saves by reusing a connection), hence "
                   "route_creds_allowed_via_refinement; transparent_histories_ignore_hosts (Host vs destination over whole "
                   "histories); parse_upstream_auth transcribed with C20_B64's base64/UTF-8 (validSpec_iff, upstream_value_decodes: "
-                  "what the proxy receives decodes to exactly the configured credential); every one of these histories may contain server disconnects (`drop` events: "
+                  "what the proxy receives decodes to exactly the configured credential); (round 5) client replay is modelled and tied "
+                  "(replayWrites; replay_creds_confined, replay_no_creds_in_other_modes: a replayed request is routed and "
+                  "credentialed by the RUNNING mode, the recorded mode is not an argument); every one of these histories may contain server disconnects (`drop` events: "
                   "the upstream side closes inside a tunnel or between tunnels and is re-established with a new CONNECT), and "
                   "tunneled_for_the_whole_life_of_the_client_connection / server_disconnect_keeps_tunnel state that `tunneled` "
                   "and the tunnel phase belong to the CLIENT connection and survive them. Both models are tied end to end through the full layer "
@@ -315,10 +317,10 @@ class Check(PropertyCheck):
                   "order of first use and whether it was reused. All cases run through the REAL default addon chain "
                   "(mitmproxy.addons.default_addons(), source order; rewrites by the real MapRemote and by a user script loaded at "
                   "ScriptLoader's place); the assumed order is regenerated into Gen/C24.lean and proved by addon_order_as_assumed.")
-    level_note = ("trusted: Lean kernel; hand model tied differentially (validated, not verified). Oracle-only (no model): client "
-                  "replay through the real clientplayback.ReplayHandler (every running mode x recorded mode; a replay in upstream mode "
-                  "of a flow recorded in another mode trips an assertion in HttpLayer.Start and writes nothing) and cases with a "
-                  "refusing ProxyAuth. An addon rewriting http->https between requestheaders and request is driven with the real "
+    level_note = ("trusted: Lean kernel; hand model tied differentially (validated, not verified). Client replay runs through the real "
+                  "clientplayback.ReplayHandler (every running mode x recorded mode x spelling of the mode name) and is compared "
+                  "with the model, except a replay in upstream mode of a flow recorded in another mode (it trips an assertion in "
+                  "HttpLayer.Start and writes nothing: oracle only); cases with a refusing ProxyAuth are oracle-only. An addon rewriting http->https between requestheaders and request is driven with the real "
                   "MapRemote addon and modelled as an https request (which is what the repaired UpstreamAuth makes of it). TLS towards the origin IS "
                   "driven for https-scheme requests: an in-memory TLS server (ssl.MemoryBIO, certificate from a CertStore under "
                   ".work/c24, real TlsConfig addon answering tls_start_server) terminates the session that mitmproxy opens "
